@@ -763,6 +763,24 @@ def w_put_allocations_attrs(ctx, s):
             'consumer_generation': None if gen_null else ctx.int('req_cgen')}
     r = app.call('PUT', '/allocations/' + CONS(1), body, version='1.38')
     if r.status != 204:
+        # a refused write names nothing: the consumer (if there is one)
+        # still reads back as before
+        back = app.call('GET', '/allocations/' + CONS(1), version='1.38')
+        js = back.json
+        if 'project_id' in js:
+            for k, want in (('project_id', 'proj'), ('user_id', 'user'),
+                            ('consumer_type', 'INSTANCE')):
+                if js.get(k) != want:
+                    runner.violation(
+                        ctx, 'write-effect', 'after a write answered %d '
+                        'the consumer reads back %s=%r (was %r)' % (
+                            r.status, k, js.get(k), want),
+                        sig='rejected:' + k)
+        post = s.w.dump()
+        obligation(ctx, 'write-effect',
+                   zbool(rel_diff(s.pre, post, ('consumers', 'allocations'))),
+                   'a write answered %d changed consumers or allocations'
+                   % r.status, sig='rejected-trace')
         return r
     back = app.call('GET', '/allocations/' + CONS(1), version='1.38')
     js = back.json
